@@ -56,6 +56,116 @@ theorem resolve (o : Oracle) (token env : PyVal) : Src.resolve o noAttr token en
       rfl
   | _ => rfl
 
+/-! ### stage 2: the fifteen binary operators (`if '==' in cond:` … `if 'between' in cond:`) -/
+
+theorem eval_binops_chain (cx : CondCtx) (kvs : List (String × PyVal)) :
+    Src.eval_binops cx.o noAttr (parseDtExt cx.o) (.dict kvs) cx.env (.bool cx.strict) =
+      chainModel cx (.dict kvs) binOpsInOrder := by
+  unfold Src.eval_binops
+  simp only [binop_head]
+  simp only [resolve, bind_ok, ensure_numeric_strict, ensure_str, as_collection]
+  unfold binOpsInOrder
+  refine opBranch_step cx kvs .eq _ _ _ (fun a b => rfl) ?_
+  refine opBranch_step cx kvs .ne _ _ _ (fun a b => rfl) ?_
+  refine opBranch_step cx kvs .gt _ _ _ (fun a b => ?_) ?_
+  · cases h : numericPair (Rbacx.resolve cx.o a cx.env) (Rbacx.resolve cx.o b cx.env) with
+    | error e => simp only [evalOp, h]; rfl
+    | ok p => obtain ⟨m, n⟩ := p; simp only [evalOp, h]; rfl
+  refine opBranch_step cx kvs .lt _ _ _ (fun a b => ?_) ?_
+  · cases h : numericPair (Rbacx.resolve cx.o a cx.env) (Rbacx.resolve cx.o b cx.env) with
+    | error e => simp only [evalOp, h]; rfl
+    | ok p => obtain ⟨m, n⟩ := p; simp only [evalOp, h]; rfl
+  refine opBranch_step cx kvs .ge _ _ _ (fun a b => ?_) ?_
+  · cases h : numericPair (Rbacx.resolve cx.o a cx.env) (Rbacx.resolve cx.o b cx.env) with
+    | error e => simp only [evalOp, h]; rfl
+    | ok p => obtain ⟨m, n⟩ := p; simp only [evalOp, h]; rfl
+  refine opBranch_step cx kvs .le _ _ _ (fun a b => ?_) ?_
+  · cases h : numericPair (Rbacx.resolve cx.o a cx.env) (Rbacx.resolve cx.o b cx.env) with
+    | error e => simp only [evalOp, h]; rfl
+    | ok p => obtain ⟨m, n⟩ := p; simp only [evalOp, h]; rfl
+  refine opBranch_step cx kvs .contains _ _ _ (fun a b => ?_) ?_
+  · generalize Rbacx.resolve cx.o a cx.env = x
+    generalize Rbacx.resolve cx.o b cx.env = y
+    cases x <;> cases y <;> rfl
+  refine opBranch_step cx kvs .isIn _ _ _ (fun a b => ?_) ?_
+  · generalize Rbacx.resolve cx.o a cx.env = x
+    generalize Rbacx.resolve cx.o b cx.env = y
+    cases x <;> cases y <;> first | rfl | skip
+    next xs ys =>
+      show PyE.bind (anyE ys fun val => containsE (.list xs) val) (fun t => Except.ok (PyE.Flow.ret t)) = _
+      rw [containsE_list, anyE_ok]; rfl
+  refine opBranch_step cx kvs .hasAll _ _ _ (fun a b => ?_) ?_
+  · generalize Rbacx.resolve cx.o a cx.env = x
+    generalize Rbacx.resolve cx.o b cx.env = y
+    cases x <;> cases y <;> first | rfl | skip
+    next xs ys =>
+      show PyE.bind (allE ys fun v => containsE (.list xs) v) (fun t => Except.ok (PyE.Flow.ret t)) = _
+      rw [containsE_list, allE_ok]; rfl
+  refine opBranch_step cx kvs .hasAny _ _ _ (fun a b => ?_) ?_
+  · generalize Rbacx.resolve cx.o a cx.env = x
+    generalize Rbacx.resolve cx.o b cx.env = y
+    cases x <;> cases y <;> first | rfl | skip
+    next xs ys =>
+      show PyE.bind (anyE ys fun v => containsE (.list xs) v) (fun t => Except.ok (PyE.Flow.ret t)) = _
+      rw [containsE_list, anyE_ok]; rfl
+  refine opBranch_step cx kvs .startsWith _ _ _ (fun a b => ?_) ?_
+  · generalize Rbacx.resolve cx.o a cx.env = x
+    generalize Rbacx.resolve cx.o b cx.env = y
+    cases x <;> cases y <;> rfl
+  refine opBranch_step cx kvs .endsWith _ _ _ (fun a b => ?_) ?_
+  · generalize Rbacx.resolve cx.o a cx.env = x
+    generalize Rbacx.resolve cx.o b cx.env = y
+    cases x <;> cases y <;> rfl
+  refine opBranch_step cx kvs .before _ _ _ (fun a b => ?_) ?_
+  · simp only [parseDtExt, truthy, evalOp]
+    cases parseDt cx.o cx.strict (Rbacx.resolve cx.o a cx.env) <;>
+      cases parseDt cx.o cx.strict (Rbacx.resolve cx.o b cx.env) <;> rfl
+  refine opBranch_step cx kvs .after _ _ _ (fun a b => ?_) ?_
+  · simp only [parseDtExt, truthy, evalOp]
+    cases parseDt cx.o cx.strict (Rbacx.resolve cx.o a cx.env) <;>
+      cases parseDt cx.o cx.strict (Rbacx.resolve cx.o b cx.env) <;> rfl
+  refine opBranch_step cx kvs .between _ _ _ (fun a b => ?_) rfl
+  · simp only [parseDtExt, truthy_bool, evalOp]
+    generalize Rbacx.resolve cx.o b cx.env = y
+    cases parseDt cx.o cx.strict (Rbacx.resolve cx.o a cx.env) with
+    | error e => rfl
+    | ok d =>
+      cases y with
+      | list ys =>
+        match ys with
+        | [] => rfl
+        | [_] => rfl
+        | _ :: _ :: _ :: _ => rfl
+        | [lo, hi] =>
+          show (PyE.bind (Except.map (dt true) (parseDt cx.o cx.strict (Rbacx.resolve cx.o lo cx.env))) fun t104 =>
+                PyE.bind (Except.map (dt true) (parseDt cx.o cx.strict (Rbacx.resolve cx.o hi cx.env))) fun t107 =>
+                PyE.bind (PyE.bind (leE t104 (dt true d)) fun t108 => if t108.truthy then leE (dt true d) t107 else Except.ok t108)
+                  fun t => Except.ok (PyE.Flow.ret t)) =
+              Except.map retBool (do
+                let s ← parseDt cx.o cx.strict (Rbacx.resolve cx.o lo cx.env)
+                let e ← parseDt cx.o cx.strict (Rbacx.resolve cx.o hi cx.env)
+                pure (decide (s ≤ d) && decide (d ≤ e)))
+          cases parseDt cx.o cx.strict (Rbacx.resolve cx.o lo cx.env) with
+          | error e => rfl
+          | ok s =>
+            cases parseDt cx.o cx.strict (Rbacx.resolve cx.o hi cx.env) with
+            | error e => rfl
+            | ok e =>
+              show (PyE.bind (PyE.bind (leE (dt true s) (dt true d)) fun t108 => if t108.truthy then leE (dt true d) (dt true e) else Except.ok t108)
+                  fun t => Except.ok (PyE.Flow.ret t)) = Except.ok (retBool (decide (s ≤ d) && decide (d ≤ e)))
+              simp only [leE, BEq.rfl, if_true, bind_ok, truthy_bool]
+              cases decide (s ≤ d) <;> rfl
+      | _ => rfl
+
+/-- `Src.eval_binops` on a dict `cond`: the first operator key present (in the order of the `if` chain) is evaluated by the model's
+    `evalBin` — same value, same exception —, and without any operator key control leaves the range -/
+theorem eval_binops (cx : CondCtx) (kvs : List (String × PyVal)) :
+    Src.eval_binops cx.o noAttr (parseDtExt cx.o) (.dict kvs) cx.env (.bool cx.strict) =
+      match binOpsInOrder.find? (fun op => PyVal.hasKey (.dict kvs) op.key) with
+      | some op => (evalBin cx op ((PyVal.dict kvs).get op.key)).map retBool
+      | Option.none => .ok .next := by
+  exact (eval_binops_chain cx kvs).trans (chainModel_eq cx _ _)
+
 end Rbacx.Translated
 
 #print axioms Rbacx.Translated.is_strict_e
@@ -63,3 +173,5 @@ end Rbacx.Translated
 #print axioms Rbacx.Translated.as_collection
 #print axioms Rbacx.Translated.ensure_numeric_strict
 #print axioms Rbacx.Translated.resolve
+#print axioms Rbacx.Translated.eval_binops_chain
+#print axioms Rbacx.Translated.eval_binops
